@@ -69,12 +69,19 @@ var _ state.Mutable = verifMutable{}
 
 // ---- inner DSMR stub: remembers what it was asked to build, returns the executed block the driver scripted
 type stubDSMR struct {
-	built [][]*chain.Transaction
-	next  dsmr.ExecutedBlock[*chain.Transaction]
+	built    [][]*chain.Transaction
+	next     dsmr.ExecutedBlock[*chain.Transaction]
+	failNext bool // the next BuildChunk fails (duplicate chunk, rate limit, gossip error, ...)
 }
+
+var errVerifInnerBuild = errors.New("verif: inner chunk build failed")
 
 func (s *stubDSMR) BuildChunk(_ context.Context, txs []*chain.Transaction, _ int64, _ codec.Address) error {
 	s.built = append(s.built, append([]*chain.Transaction{}, txs...))
+	if s.failNext {
+		s.failNext = false
+		return errVerifInnerBuild
+	}
 	return nil
 }
 
@@ -84,11 +91,19 @@ func (s *stubDSMR) Accept(_ context.Context, _ dsmr.Block) (dsmr.ExecutedBlock[*
 
 // ---- recording decorator around the real Bonder: only remembers the answers of Bond
 type recBonder struct {
-	inner ichain.Bonder
-	oks   []bool
+	inner  ichain.Bonder
+	oks    []bool
+	failAt int // >= 0: the Bond call with this index (within one BuildChunk) fails like a database read error
 }
 
+var errVerifBond = errors.New("verif: bonder database failed")
+
 func (r *recBonder) Bond(ctx context.Context, mutable state.Mutable, tx *chain.Transaction, fee uint64) (bool, error) {
+	if r.failAt >= 0 && len(r.oks) == r.failAt {
+		// the real Bonder fails before it writes anything when its first database read fails: nothing changes
+		r.failAt = -1
+		return false, errVerifBond
+	}
 	ok, err := r.inner.Bond(ctx, mutable, tx, fee)
 	r.oks = append(r.oks, ok)
 	return ok, err
@@ -147,7 +162,7 @@ func (h *bondHarness) pend() map[string]int {
 
 func newBondHarness(t *testing.T, r *rand.Rand, nSponsors int) *bondHarness {
 	h := &bondHarness{t: t, db: memdb.New(), stub: &stubDSMR{}, mutable: verifMutable{}, txs: map[string]*chain.Transaction{}, names: map[string]string{}}
-	h.bonder = &recBonder{inner: ichain.NewBonder(h.db)}
+	h.bonder = &recBonder{inner: ichain.NewBonder(h.db), failAt: -1}
 	h.node = fdsmr.New[*stubDSMR, *chain.Transaction](h.stub, h.bonder)
 	info := map[string]any{}
 	for i, n := range bondTxNames {
@@ -207,7 +222,8 @@ func (h *bondHarness) setMax(s int, m int) {
 	h.lines = append(h.lines, map[string]any{"ev": "setmax", "s": bondSponsors[s], "m": m, "pend": h.pend()})
 }
 
-func (h *bondHarness) build(names []string, rate int) {
+// fail: "none", "inner" (the inner DSMR.BuildChunk returns an error) or "bond" (Bond errors for txs[bondFailAt])
+func (h *bondHarness) build(names []string, rate int, fail string, bondFailAt int) {
 	txs := make([]*chain.Transaction, len(names))
 	for i, n := range names {
 		txs[i] = h.txs[n]
@@ -217,18 +233,39 @@ func (h *bondHarness) build(names []string, rate int) {
 		feeRate = uint64(rate)
 	}
 	h.bonder.oks = nil
-	nb := len(h.stub.built)
-	if err := h.node.BuildChunk(context.Background(), h.mutable, txs, 1_000, codec.EmptyAddress, feeRate); err != nil {
-		h.t.Fatalf("VERIF_INFRA BuildChunk: %v", err)
+	h.bonder.failAt = -1
+	h.stub.failNext = fail == "inner"
+	if fail == "bond" {
+		h.bonder.failAt = bondFailAt
 	}
-	if len(h.bonder.oks) != len(names) || len(h.stub.built) != nb+1 {
-		h.t.Fatalf("VERIF_INFRA node asked the bonder %d times for %d txs", len(h.bonder.oks), len(names))
+	nb := len(h.stub.built)
+	err := h.node.BuildChunk(context.Background(), h.mutable, txs, 1_000, codec.EmptyAddress, feeRate)
+	wantOks, wantBuilt := len(names), nb+1
+	switch fail {
+	case "none":
+		if err != nil {
+			h.t.Fatalf("VERIF_INFRA BuildChunk: %v", err)
+		}
+	case "inner":
+		if !errors.Is(err, errVerifInnerBuild) {
+			h.t.Fatalf("VERIF_INFRA BuildChunk did not report the inner failure: %v", err)
+		}
+	case "bond":
+		if !errors.Is(err, errVerifBond) {
+			h.t.Fatalf("VERIF_INFRA BuildChunk did not report the bond error: %v", err)
+		}
+		wantOks, wantBuilt = bondFailAt, nb
+	}
+	if len(h.bonder.oks) != wantOks || len(h.stub.built) != wantBuilt {
+		h.t.Fatalf("VERIF_INFRA node asked the bonder %d times (want %d) for %d txs, inner builds %d (want %d)", len(h.bonder.oks), wantOks, len(names), len(h.stub.built), wantBuilt)
 	}
 	built := []string{}
-	for _, tx := range h.stub.built[nb] {
-		built = append(built, h.names[tx.GetID().String()])
+	if len(h.stub.built) > nb {
+		for _, tx := range h.stub.built[nb] {
+			built = append(built, h.names[tx.GetID().String()])
+		}
 	}
-	h.lines = append(h.lines, map[string]any{"ev": "build", "txs": names, "rate": rate, "oks": append([]bool{}, h.bonder.oks...), "built": built, "pend": h.pend()})
+	h.lines = append(h.lines, map[string]any{"ev": "build", "txs": names, "rate": rate, "oks": append([]bool{}, h.bonder.oks...), "built": built, "err": fail, "pend": h.pend()})
 }
 
 func (h *bondHarness) accept(ts int, incl []string) {
@@ -337,7 +374,14 @@ func TestVerifBondRecord(t *testing.T) {
 					}
 				}
 				rate := []int{0, 1, 1, 1, 2, 2, 3, 5, -1}[r.Intn(9)]
-				h.build(names, rate)
+				fail, at := "none", 0
+				switch r.Intn(12) {
+				case 0, 1:
+					fail = "inner"
+				case 2:
+					fail, at = "bond", r.Intn(k)
+				}
+				h.build(names, rate, fail, at)
 				recent = append(recent, names...)
 				if len(recent) > 6 {
 					recent = recent[len(recent)-6:]
